@@ -11,6 +11,7 @@ import (
 	"runtime/debug"
 	"sort"
 	"strconv"
+	"time"
 )
 
 type ruleFn func(w *World, r *Report)
@@ -19,12 +20,19 @@ type ruleFn func(w *World, r *Report)
 func thoroughExtras(w *World, r *Report, vdir, repo string) {
 	if len(r.Viol) == 0 || allKnown(r, vdir) {
 		rs := replaySeeds(r.Prop, vdir, repo)
-		checkReplay(r.Prop, rs)
+		th, base := treeHash(repo), recordedBase(vdir)
+		if base == "" {
+			brokenf(r.Prop, "thorough.seed-replay", "seeded/BASE_TREE.json is missing: the tree the replay expectations belong to is unknown")
+		}
+		checkReplay(r.Prop, rs, th == base)
 		if r.Extra == nil {
 			r.Extra = map[string]interface{}{}
 		}
 		r.Extra["seed_replay"] = rs
 		r.Extra["seeded_changes_replayed"] = len(rs)
+		r.Extra["analysed_tree_hash"] = th
+		r.Extra["replay_expectations_recorded_on_tree"] = base
+		r.Extra["replay_enforced"] = th == base
 	}
 	bceCrossCheck(w, r, repo)
 }
@@ -46,15 +54,34 @@ func allKnown(r *Report, vdir string) bool {
 
 var rules = map[string]ruleFn{}
 
+// procStart: evidence wall_s includes loading and type-checking the repository.
+var procStart = time.Now()
+
 func main() {
 	prop := flag.String("prop", "", "property id (C01..C20) or 'all'")
 	tier := flag.String("tier", "", "quick|thorough (default: $VERIF_TIER or quick)")
+	treeHashOnly := flag.Bool("tree-hash", false, "print the content hash of -repo and exit")
 	repo := flag.String("repo", "/repo", "repository to analyse")
 	verif := flag.String("verif", "", "verif directory (default: directory above the binary, or cwd)")
 	list := flag.Bool("list", false, "list properties with a rule set")
 	out := flag.String("out", "", "directory for the evidence file (default <verif>/evidence)")
 	verbose := flag.Bool("v", false, "print every obligation")
+	dump := flag.Bool("dump-funcs", false, "print the names of all repo functions (to regenerate known_funcs.txt)")
 	flag.Parse()
+	if *treeHashOnly {
+		fmt.Println(treeHash(*repo))
+		return
+	}
+	if *dump {
+		noNormalize = true
+		w := loadWorld(*repo, "-")
+		for _, f := range w.Funcs {
+			if f.Parent() == nil {
+				fmt.Println(w.FuncName(f))
+			}
+		}
+		return
+	}
 	if *list {
 		var ids []string
 		for k := range rules {
@@ -100,6 +127,9 @@ func main() {
 	}()
 	w := loadWorld(*repo, *prop)
 	r := newReport(*prop, *tier, seed)
+	if len(w.Inlined) > 0 {
+		r.Extra["normalized_calls_inlined"] = w.Inlined
+	}
 	fn(w, r)
 	r.evDir = *out
 	if *tier == "thorough" {
